@@ -183,7 +183,8 @@ impl Monitor {
             // (a job whose last outcome was recorded but whose JobCompleted record was cut off by
             // the crash: its completion was due before the restart; C13 does not quantify over
             // crash points, the restart is not expected to report it again)
-            let all_terminal = !j.tasks.is_empty() && j.tasks.values().all(|t| crate::journal::terminal(t.status));
+            // (also an opened job closed while empty: JobOpen, JobClose, crash)
+            let all_terminal = j.tasks.values().all(|t| crate::journal::terminal(t.status));
             if j.completed || (!j.open && all_terminal) {
                 m.s.completed_seen.insert(*jid, 1);
             }
